@@ -2,14 +2,25 @@ package common
 
 import (
 	"encoding/binary"
+	"errors"
 	"io"
 	"strings"
 )
 
-// WriteString writes a string preceded by its length (up to 256 bytes)
+// MaxStringLen is the longest string WriteString can encode: the length
+// prefix is a single byte.
+const MaxStringLen = 255
+
+// ErrStringTooLong is returned by WriteString for strings longer than MaxStringLen.
+var ErrStringTooLong = errors.New("string does not fit a one-byte length prefix (maximum 255 bytes)")
+
+// WriteString writes a string preceded by its length (up to 255 bytes)
 // TODO(baumanl): make this better/make sure they work with updates to reliable tubes
 func WriteString(s string, w io.Writer) (int64, error) {
 	var written int64
+	if len(s) > MaxStringLen {
+		return written, ErrStringTooLong
+	}
 	// write length of string as one byte
 	n, err := w.Write([]byte{byte(len(s))})
 	written += int64(n)
